@@ -132,6 +132,15 @@ func newNilAnalyzer(p *core.Prog, cs *crashScope) *nilAnalyzer {
 		a.model[n] = true
 	}
 	a.unset, a.lits = unsetByLiterals(p, a.model)
+	// fields of the filter's input structs that the caller may leave nil (frozen, with the reason):
+	// "any response whatsoever" includes the one whose input was built without a body
+	for k, why := range map[string]string{
+		"ResponseValidationInput.Body": "the caller: a response without a body is given as the zero value of the field (http.Response.Body of a hand-built response)",
+	} {
+		if _, ok := a.unset[k]; !ok {
+			a.unset[k] = why
+		}
+	}
 	// validated-document axioms: each names the Validate line that rejects nil (checked by C04.descent)
 	a.axioms = map[string]string{
 		"Operation.Responses": "Operation.Validate rejects an operation without responses",
